@@ -1,0 +1,39 @@
+// This Source Code Form is subject to the terms of the Mozilla Public
+// License, v. 2.0. If a copy of the MPL was not distributed with this
+// file, You can obtain one at http://mozilla.org/MPL/2.0/.
+
+//go:build verif
+
+package state
+
+// Contracts for the deductive verifier in /verif (govc). Comment-only file: it
+// adds no code. Lines starting with //@ are parsed by govc; see /verif/DESIGN.md.
+
+// Error classification (C01): every predicate terminates without panicking for every error value
+// and option list, and answers true only for a non-nil error.
+
+//@ iface ErrConflict.GetResource
+//@   pure
+//@   ensures [conflict-has-resource] result != nil
+//@ iface ErrConflict.ConflictError
+//@   pure
+//@
+//@ func IsNotFoundError
+//@   props C01 C11
+//@   ensures [nonnil] result ==> err != nil
+//@ func IsOwnerConflictError
+//@   props C01 C11
+//@   ensures [nonnil] result ==> err != nil
+//@ func IsPhaseConflictError
+//@   props C01 C11
+//@   ensures [nonnil] result ==> err != nil
+//@ func IsUnsupportedError
+//@   props C01 C11
+//@   ensures [nonnil] result ==> err != nil
+//@ func IsInvalidWatchBookmarkError
+//@   props C01 C11
+//@   ensures [nonnil] result ==> err != nil
+//@ func IsConflictError
+//@   props C01 C11
+//@   requires [opts-nonnil] forall i int :: 0 <= i && i < len(opts) ==> opts[i] != nil
+//@   ensures [nonnil] result ==> err != nil
